@@ -171,21 +171,25 @@ def owner1(ctx, prog, cfg):
     from .. import drainrules
 
     drainrules.drnview1(ctx, prog, cfg, "OWNER1")
+    owner1_from(ctx, prog, cfg, "OWNER1")
+
+
+def owner1_from(ctx, prog, cfg, RULE):
     # From<[T; M]>
-    f = ctx.need_fn(prog, "<CircularBuffer<N, T> as From<[T; M]>>::from", "OWNER1")
+    f = ctx.need_fn(prog, "<CircularBuffer<N, T> as From<[T; M]>>::from", RULE)
     if f is not None:
         rets = set(f.return_blocks())
         dips = [b for b, t in f.calls(False) if mir.callee_path(t) == common.DROP_IN_PLACE]
         disarm = [b for b, t in f.calls(False) if mir.callee_path(t) in (common.MEM_FORGET, "core::mem::manually_drop::ManuallyDrop::new")]
         copies = [b for b, t in f.calls(False) if mir.callee_path(t) in ("core::ptr::copy_nonoverlapping", "core::ptr::copy")] + \
                  [b for b, i, st, is_term in f.positions(False) if not is_term and st["k"] == "copy_nonoverlapping"]
-        ctx.check(bool(dips) and f.must_pass(None, dips, rets), "OWNER1", f.short, "prefix destroyed on every path", f.loc,
+        ctx.check(bool(dips) and f.must_pass(None, dips, rets), RULE, f.short, "prefix destroyed on every path", f.loc,
                   "a path through From<[T; M]>::from returns without destroying the array elements that do not fit: they are leaked",
                   "every return passes drop_in_place in bb%s" % dips, cfg)
-        ctx.check(bool(disarm) and f.must_pass(None, disarm, rets), "OWNER1", f.short, "array disarmed on every path", f.loc,
+        ctx.check(bool(disarm) and f.must_pass(None, disarm, rets), RULE, f.short, "array disarmed on every path", f.loc,
                   "a path through From<[T; M]>::from returns with the source array still armed: the elements moved into the "
                   "buffer are destroyed a second time when the array goes out of scope",
                   "every return passes forget/ManuallyDrop::new in bb%s" % disarm, cfg)
-        ctx.check(bool(copies) and f.must_pass(None, copies, rets), "OWNER1", f.short, "elements copied on every path", f.loc,
+        ctx.check(bool(copies) and f.must_pass(None, copies, rets), RULE, f.short, "elements copied on every path", f.loc,
                   "a path returns a buffer with size > 0 without having copied the elements in",
                   "every return passes the bit-copy in bb%s" % copies, cfg)
